@@ -6,8 +6,50 @@ only point where the other thread's store can influence the runner is the value 
 from . import c03
 
 PID = 'C13'
-replayer = c03.replayer
+def replayer(v):
+    if v.get('kind') == 'lemma' and v.get('level') == 'env':
+        from mirsym import harness as H
+        out = H.replay(dict(mode='env_wiring')); v['native'] = out
+        if out.get('panic'): return (True, 'native panic')
+        bad = [c for c in out.get('cases', []) if not c['same_flag'] or c['started'] != 0]
+        return (bool(bad), 'the flag passed to Env::new is not the one the runner polls for %r' % bad if bad else 'natively the runner polls the flag passed to Env::new for every combination of writers')
+    return c03.replayer(v)
 
 
 def main(tier, seed):
-    return c03.main(tier, seed, pid=PID, halting=True)
+    return c03.main(tier, seed, pid=PID, halting=True, extra_jobs=[(job_env_wiring, 'step:environment wiring', {})], replayer_fn=replayer)
+
+
+# ---------------------------------------------------------------------- the flag the runner polls is the flag the embedder holds
+def job_env_wiring(ctx, jr):
+    """Env::new and create_runtime / Runtime::new (straight-line): whatever combination of output writers is passed, the halt flag
+    of the environment the runner ends up with is the very Arc the embedder passed in (pointer identity on the engine heap)."""
+    import time as _t
+    from mirsym import harness as H, solve
+    from mirsym.values import T, E, P, PV, Opaque, M, V, zeq, zand, zite, deep_eq, mk_str
+    from mirsym.engine import State, Obligation, some, none, OPTION
+    from mirsym.harness import discharge_known, witness
+    jr.bounds = dict(out='given or not', err='given or not', halt='given', claim='straight-line lemmas; the step lemma of run_instructions then polls runtime.env.halt')
+    e = ctx.engine(unwind=3); t0 = _t.time()
+    st = State(True, {})
+    flag = e.alloc(st, False)                    # the embedder's Arc<AtomicBool>
+    ho = e.fresh_bool('out.given'); he = e.fresh_bool('err.given')
+    out_o = E(OPTION, zite(ho, 1, 0), {0: [], 1: [Opaque('writer:out')]}); err_o = E(OPTION, zite(he, 1, 0), {0: [], 1: [Opaque('writer:err')]})
+    for pat in ('std::io::stdout', 'std::io::stderr'): e.hooks[pat] = lambda eng, st1, a, c: Opaque('std stream')
+    rs, env = e.run('core', 'types::env::Env::new', [out_o, err_o, some(flag)], st)
+    from mirsym.values import U, zor
+    def ptr_same(x):
+        if isinstance(x, P): return (x.fid, x.loc, tuple(x.proj)) == (flag.fid, flag.loc, tuple(flag.proj))
+        if isinstance(x, U): return zor(*[zand(c, ptr_same(y)) for c, y in x.alts])
+        return False
+    obs = [(rs.g, ptr_same(env.f[2]), 'Env::new keeps the halt flag of the caller for every combination of writers')]
+    # Runtime::new / create_runtime keep the environment of the caller
+    ctxv = T([M([]), M([]), T([M([]), M([])], 'types::command::Commands')], 'types::runtime::Context')
+    rs2, rt = e.run('core', 'runner::create_runtime', [V(0, []), ctxv, some(env)], rs)
+    h2 = rt.f[3].f[2]
+    obs.append((rs2.g, ptr_same(h2), 'the runtime polls the environment of the caller (same halt flag)'))
+    for g, cnd, msg in obs: e.obligations.append(Obligation(g, cnd, 'C13 environment wiring: %s' % msg, 'assert', 'oracle'))
+    jr.symex_time += _t.time() - t0
+    res = discharge_known(e, jr, PID, {}, lambda m, o=None: dict(kind='lemma', level='env', out_given=solve.model_bool(m, ho), err_given=solve.model_bool(m, he)))
+    witness(jr, e, 'environment wiring: no writer given', zand(rs.g, zeq(ho, False), zeq(he, False)), lambda m, o=None: dict(kind='lemma', level='env'))
+    H.finish_job(jr, e, res)
